@@ -1,0 +1,12 @@
+//go:build !verif
+
+// Package verifhook holds the instrumentation points used by the external
+// verification harness. Without the build tag "verif" every function is an
+// empty stub, so production builds and the test suite are unaffected.
+package verifhook
+
+const Enabled = false
+
+func Event(kind string, args ...string)    {}
+func Yield(point string)                   {}
+func Fault(point string, arg string) error { return nil }
